@@ -27,6 +27,7 @@ PROPS = {
     "C12": "vp.harness.c12_const",
     "C13": "vp.harness.c13_robust",
     "C14": "vp.harness.c14_evolve",
+    "C16": "vp.harness.c16_symbolic",
     "C17": "vp.harness.c17_errloc",
     "C19": "vp.harness.c19_closure",
 }
